@@ -106,12 +106,13 @@ impl Prop for C08Prop {
             large_pct: 25,
             n_small: (1, 9),
             n_large: (21, 40),
-            regimes: vec![WeightRegime::AllNan, WeightRegime::Dyadic, WeightRegime::SmallInt, WeightRegime::Nasty, WeightRegime::Tiny, WeightRegime::NearEqual, WeightRegime::MixedScale],
+            regimes: vec![WeightRegime::AllNan, WeightRegime::Dyadic, WeightRegime::SmallInt, WeightRegime::Nasty, WeightRegime::FineDyadic, WeightRegime::Tiny, WeightRegime::NearEqual, WeightRegime::MixedScale],
             kinds: AlgoGen::all_kinds(),
             shapes: None,
             lifecycle_pct: 25,
             keyings: 1,
             boundary_per_mille: 0,
+            huge_one_in: 1000,
         }
         .gen("C08", seed, idx)
     }
@@ -341,7 +342,7 @@ impl Prop for C08Prop {
         cx.states.push(super::lifecycle::ops_hash(&case.ops));
     }
     fn rule(&self) -> String {
-        "graphs of all 8 kinds (n <= 9 or 21-40; shapes and lifecycle-built), hop counts or positive weights; relations of the implementation against itself: all_pairs = multi_source(all nodes) = single_source per node; every combination of target in {None, nodes} x cutoff in {None, each distinct distance, midpoints, below the minimum, above the maximum} x first_only x with_paths is a restriction of the unrestricted answer with unchanged values; with_paths=false (distance-only fast path) vs the full algorithm; undirected symmetry; triangle inequality; get_all_shortest_paths_involving = pairs with the node strictly inside; above 20 nodes all_pairs / multi_source run under a simulated pool while single_source is serial. distinct_nontrivial = distinct graphs with >= 2 edges".into()
+        "graphs of all 8 kinds (n <= 9 or 21-40; shapes and lifecycle-built), hop counts or positive weights; relations of the implementation against itself: all_pairs = multi_source(all nodes) = single_source per node; every combination of target in {None, nodes} x cutoff in {None, each distinct distance, midpoints, below the minimum, above the maximum} x first_only x with_paths is a restriction of the unrestricted answer with unchanged values; with_paths=false (distance-only fast path) vs the full algorithm; undirected symmetry; triangle inequality; get_all_shortest_paths_involving = pairs with the node strictly inside; above 20 nodes all_pairs / multi_source run under a simulated pool while single_source is serial. distinct_nontrivial = distinct graphs with >= 2 edges; one case in 1000 is a dense graph (1-3 blocks, 60-300 nodes) with 2 100 - 12 500 stored edges under a pool of 2-16 workers (strategy thresholds)".into()
     }
     fn assumptions(&self) -> Vec<String> {
         vec!["with first_only the choice of the path is unspecified: only membership in the all-paths answer is required, and entry points are compared with first_only=false".into(), "distances are compared bit-exactly under dyadic weights / hop counts and at 1e-9 otherwise".into()]
